@@ -2,7 +2,7 @@ import OrbitModel.Proofs.LoadLimit
 import OrbitModel.Proofs.LoadNoPanic
 import OrbitModel.Proofs.LoadChain
 import OrbitModel.Proofs.LoadExamples
-import OrbitModel.Proofs.GenEq
+import OrbitModel.Proofs.GenEqLoad
 /-!
 # C15 — `Load(n)` shows the newest `min(n, total)` entries, in order; `n ≤ 0` loads all; never panics
 
